@@ -188,6 +188,7 @@ def _raw(case, ctx, d):
     exp = windows(A, samples, nsw, [g['common']] * len(samples))
     fa = dict(feats, route='extract', channels='array' if g['common_as_array'] else 'list', minus1=-1 in g['common'])
     samples0 = samples.copy()
+    held_direct = None
     for attempt in (1, 2):          # the second call reuses the very same channel / sample objects
         r = call(extract_waveforms, rd, samples, common, nsw) if len(samples) % 2 else call(extract_waveforms, rd, samples, common, n_samples_waveforms=nsw)
         if not r.ok:
@@ -199,6 +200,7 @@ def _raw(case, ctx, d):
             ctx.violation('window_mismatch', desc, 'extract_waveforms (call %d on the same arguments): %s' % (attempt, dd),
                           dict(fa, call=attempt))
             break
+        held_direct = r.value           # kept by the caller: re-compared after all the later extractions, exports and lookups
         if list(np.asarray(common).tolist()) != list(g['common']) or not np.array_equal(samples, samples0):
             ctx.violation('inputs_modified', desc, 'extract_waveforms modified the channel / sample arrays of the caller', fa)
             break
@@ -268,6 +270,9 @@ def _raw(case, ctx, d):
                             ctx.violation('window_mismatch', desc,
                                           'store lookup: spike %d channel %d: %r != %r' % (o, c, out[i, :, j].tolist(), e.tolist()), fc)
                             break
+    if held_direct is not None and same(held_direct, exp):
+        ctx.violation('window_mismatch', desc, 'the array returned by extract_waveforms, correct when returned, changed during later calls: %s' % same(held_direct, exp),
+                      dict(fa, held_result=True))
     if g['backend'] == 'cbin':
         call(rd.reader.close)
 
